@@ -1,0 +1,45 @@
+//go:build verif
+
+package replicator
+
+import "berty.tech/go-orbit-db/internal/verifhook"
+
+// VerifState is a snapshot of the replicator bookkeeping (verification builds only).
+type VerifState struct {
+	Queue      int
+	Added      int
+	Fetching   int
+	Fetched    int
+	Buffer     int
+	InProgress int64
+}
+
+// VerifStater is implemented by the replicator in verification builds.
+type VerifStater interface {
+	VerifState() VerifState
+}
+
+func (r *replicator) VerifState() VerifState {
+	r.muProcess.RLock()
+	defer r.muProcess.RUnlock()
+	r.muBuffer.Lock()
+	defer r.muBuffer.Unlock()
+
+	s := VerifState{Queue: r.queue.Len(), Buffer: len(r.buffer), InProgress: r.taskInProgress}
+	for _, k := range r.tasks {
+		switch k {
+		case stateAdded:
+			s.Added++
+		case stateFetching:
+			s.Fetching++
+		case stateFetched:
+			s.Fetched++
+		}
+	}
+	return s
+}
+
+// VerifSetHandler installs the schedule-point handler (verification builds only).
+func VerifSetHandler(f func(name string, keys []string)) {
+	verifhook.SetHandler(f)
+}
